@@ -662,3 +662,577 @@ Proof.
   - apply forallb_forall. intros [n v] I. simpl. apply LO in I. rewrite I. apply str_eqb_refl.
   - apply forallb_forall. intros n I. apply str_in_In. apply NM. exact I.
 Qed.
+
+(* ------------------------------------------------------------------------------------ *)
+(* calls                                                                                  *)
+(* ------------------------------------------------------------------------------------ *)
+Lemma do_call_err p order c e : p_err p = Some e -> do_call p order c = (p, mkO None (CBuilder e)).
+Proof. intros H. unfold do_call. rewrite H. reflexivity. Qed.
+
+Lemma keep_alias_err p h : p_err (keep_alias p h) = p_err p.
+Proof. unfold keep_alias. destruct (p_hdr p); reflexivity. Qed.
+
+(* a call never changes the recorded error *)
+Lemma do_call_keeps_err p order c : p_err (fst (do_call p order c)) = p_err p.
+Proof.
+  unfold do_call. destruct (p_err p) eqn:E; [exact E|].
+  destruct (c_kind c); try (simpl; rewrite keep_alias_err; exact E);
+    (destruct (c_gather c) as [fs|]; [|exact E]; destruct (check_families (p_grouping p) fs); [exact E|];
+     simpl; rewrite keep_alias_err; exact E).
+Qed.
+
+(* the first error of a Pusher is sticky: whatever is called afterwards, in any order, returns it and sends nothing *)
+Lemma first_error_sticky_lemma ops p e : p_err p = Some e ->
+  p_err (fst (run p ops)) = Some e /\
+  Forall (fun o => o_req o = None /\ o_err o = CBuilder e) (snd (run p ops)).
+Proof.
+  revert p; induction ops as [|o r IH]; intros p H; [split; [exact H|constructor]|].
+  destruct o as [b|c]; simpl.
+  - apply IH. apply apply_bop_sticky. exact H.
+  - rewrite (do_call_err p _ c e H). destruct (IH p H) as (A & B).
+    destruct (run p r) as [p2 os]. simpl in *. split; [exact A|]. constructor; [split; reflexivity|exact B].
+Qed.
+
+(* once run has started, an error can only come from a builder method, and then it stays *)
+Lemma run_err_monotone ops p e : p_err p = Some e -> p_err (fst (run p ops)) = Some e.
+Proof. intros H. apply (first_error_sticky_lemma ops p e H). Qed.
+
+Definition label_conflict (g : list (str * str)) (n : str) : bool := str_eqb n s_job || map_has n g.
+
+Lemma check_labels_some g ls e : check_labels g ls = Some e ->
+  (e = CJobLabel /\ existsb (fun l => str_eqb (fst l) s_job) ls = true) \/
+  (e = CGroupLabel /\ existsb (fun l => map_has (fst l) g) ls = true).
+Proof.
+  induction ls as [|[n v] r IH]; simpl; [discriminate|].
+  destruct (str_eqb n s_job); [intros H; inversion H; left; split; reflexivity|].
+  destruct (map_has n g); [intros H; inversion H; right; split; reflexivity|].
+  simpl. exact IH.
+Qed.
+Lemma check_labels_none g ls : check_labels g ls = None ->
+  existsb (fun l => str_eqb (fst l) s_job) ls = false /\ existsb (fun l => map_has (fst l) g) ls = false.
+Proof.
+  induction ls as [|[n v] r IH]; simpl; [split; reflexivity|].
+  destruct (str_eqb n s_job); [discriminate|]. destruct (map_has n g); [discriminate|]. simpl. exact IH.
+Qed.
+
+Lemma check_metrics_some g ms e : check_metrics g ms = Some e ->
+  (e = CJobLabel /\ existsb (fun m => existsb (fun l => str_eqb (fst l) s_job) m) ms = true) \/
+  (e = CGroupLabel /\ existsb (fun m => existsb (fun l => map_has (fst l) g) m) ms = true).
+Proof.
+  induction ms as [|m r IH]; simpl; [discriminate|].
+  destruct (check_labels g m) eqn:E.
+  - intros H. inversion H; subst. destruct (check_labels_some g m e E) as [(A & B)|(A & B)]; [left|right];
+      (split; [exact A|apply orb_true_iff; left; exact B]).
+  - intros H. destruct (IH H) as [(A & B)|(A & B)]; [left|right]; (split; [exact A|apply orb_true_iff; right; exact B]).
+Qed.
+Lemma check_metrics_none g ms : check_metrics g ms = None ->
+  existsb (fun m => existsb (fun l => str_eqb (fst l) s_job) m) ms = false /\
+  existsb (fun m => existsb (fun l => map_has (fst l) g) m) ms = false.
+Proof.
+  induction ms as [|m r IH]; simpl; [split; reflexivity|].
+  destruct (check_labels g m) eqn:E; [discriminate|]. intros H.
+  destruct (check_labels_none g m E) as (A & B). destruct (IH H) as (C & D). split; apply orb_false_iff; split; assumption.
+Qed.
+
+Lemma check_families_some g fs e : check_families g fs = Some e ->
+  (e = CJobLabel /\ has_label (fun n => str_eqb n s_job) fs = true) \/
+  (e = CGroupLabel /\ has_label (fun n => map_has n g) fs = true).
+Proof.
+  unfold has_label. induction fs as [|f r IH]; simpl; [discriminate|].
+  destruct (check_metrics g (snd f)) eqn:E.
+  - intros H. inversion H; subst. destruct (check_metrics_some g _ e E) as [(A & B)|(A & B)]; [left|right];
+      (split; [exact A|apply orb_true_iff; left; exact B]).
+  - intros H. destruct (IH H) as [(A & B)|(A & B)]; [left|right]; (split; [exact A|apply orb_true_iff; right; exact B]).
+Qed.
+Lemma check_families_none g fs : check_families g fs = None ->
+  has_label (fun n => str_eqb n s_job) fs = false /\ has_label (fun n => map_has n g) fs = false.
+Proof.
+  unfold has_label. induction fs as [|f r IH]; simpl; [split; reflexivity|].
+  destruct (check_metrics g (snd f)) eqn:E; [discriminate|]. intros H.
+  destruct (check_metrics_none g _ E) as (A & B). destruct (IH H) as (C & D). split; apply orb_false_iff; split; assumption.
+Qed.
+
+(* nothing is sent when an error is recorded, gathering fails, or a metric carries "job" / a grouping label *)
+Lemma nothing_sent_when_lemma p order c :
+  (p_err p <> None \/
+   (c_kind c <> KDelete /\
+    (c_gather c = None \/
+     exists fs, c_gather c = Some fs /\
+                (has_label (fun n => str_eqb n s_job) fs = true \/ has_label (fun n => map_has n (p_grouping p)) fs = true)))) ->
+  o_req (snd (do_call p order c)) = None /\ o_err (snd (do_call p order c)) <> CNone.
+Proof.
+  intros H. unfold do_call. destruct (p_err p) eqn:E; [split; [reflexivity|discriminate]|].
+  destruct H as [H|(K & H)]; [congruence|].
+  destruct (c_kind c) eqn:Kd; try congruence;
+    (destruct H as [H|(fs & H & L)]; rewrite H; [split; [reflexivity|discriminate]|];
+     destruct (check_families (p_grouping p) fs) eqn:C;
+     [split; [reflexivity|]; destruct (check_families_some _ _ _ C) as [(A & _)|(A & _)]; subst; discriminate|];
+     destruct (check_families_none _ _ C) as (A & B); destruct L; congruence).
+Qed.
+
+Lemma first_bop_error_in o ops e : In o ops -> bop_error o = Some e -> first_bop_error ops <> None.
+Proof.
+  induction ops as [|x r IH]; simpl; [intros []|].
+  intros [A|A] B.
+  - subst. rewrite B. discriminate.
+  - destruct (bop_error x); [discriminate|]. apply IH; assumption.
+Qed.
+
+(* the builder-level causes: empty job, invalid grouping label name, failed Collector registration *)
+Lemma builder_failure_recorded_lemma url job ops :
+  (job = [] \/ (exists n v, In (BGrouping n v) ops /\ label_name_valid n = false) \/ In (BCollector true) ops) ->
+  p_err (run_builder (new url job) ops) <> None.
+Proof.
+  rewrite builder_error_is_first_lemma. unfold spec_first_error.
+  intros [H|[(n & v & I & B)|I]].
+  - subst. discriminate.
+  - destruct (is_nil job); [discriminate|]. apply (first_bop_error_in _ _ (EBadName n) I). simpl. rewrite B. reflexivity.
+  - destruct (is_nil job); [discriminate|]. apply (first_bop_error_in _ _ ERegister I). reflexivity.
+Qed.
+
+Lemma method_per_call_lemma p order c r : o_req (snd (do_call p order c)) = Some r ->
+  r_method r = method_of (c_kind c) /\ r_url r = full_url_with p order /\
+  r_fams r = match c_kind c with KDelete => None | _ => c_gather c end.
+Proof.
+  unfold do_call. destruct (p_err p); [discriminate|].
+  destruct (c_kind c); try (simpl; intros H; inversion H; subst; repeat split; reflexivity);
+    (destruct (c_gather c) as [fs|]; [|discriminate]; destruct (check_families (p_grouping p) fs); [discriminate|];
+     simpl; intros H; inversion H; subst; repeat split; reflexivity).
+Qed.
+
+Lemma status_classification_lemma p order c r : o_req (snd (do_call p order c)) = Some r ->
+  o_err (snd (do_call p order c)) =
+  match c_tr c with TFail => CTransport | TStatus s => spec_status_err (c_kind c) s end.
+Proof.
+  unfold do_call. destruct (p_err p); [discriminate|].
+  destruct (c_kind c); try (simpl; intros _; reflexivity);
+    (destruct (c_gather c) as [fs|]; [|discriminate]; destruct (check_families (p_grouping p) fs); [discriminate|];
+     simpl; intros _; reflexivity).
+Qed.
+
+Lemma spec_status_err_ok k s :
+  spec_status_err k s = CNone <-> (k = KDelete /\ s = 202) \/ (k <> KDelete /\ (s = 200 \/ s = 202)).
+Proof.
+  destruct k; simpl.
+  - destruct (s =? 200) eqn:A; simpl; [apply Z.eqb_eq in A; split; [intros _; right; split; [discriminate|lia]|reflexivity]|].
+    destruct (s =? 202) eqn:B; [apply Z.eqb_eq in B; split; [intros _; right; split; [discriminate|lia]|reflexivity]|].
+    apply Z.eqb_neq in A, B. split; [discriminate|]. intros [(C & _)|(_ & C)]; [discriminate|lia].
+  - destruct (s =? 200) eqn:A; simpl; [apply Z.eqb_eq in A; split; [intros _; right; split; [discriminate|lia]|reflexivity]|].
+    destruct (s =? 202) eqn:B; [apply Z.eqb_eq in B; split; [intros _; right; split; [discriminate|lia]|reflexivity]|].
+    apply Z.eqb_neq in A, B. split; [discriminate|]. intros [(C & _)|(_ & C)]; [discriminate|lia].
+  - destruct (s =? 202) eqn:B; [apply Z.eqb_eq in B; split; [intros _; left; split; [reflexivity|lia]|reflexivity]|].
+    apply Z.eqb_neq in B. split; [discriminate|]. intros [(_ & C)|(C & _)]; [lia|congruence].
+Qed.
+
+(* headers *)
+Lemma hdr_after_auth_get p k :
+  map_get k (hdr_after_auth p) =
+  match p_auth p with
+  | Some (u, pw) => if str_eqb s_authorization k then Some [basic_value u pw]
+                    else map_get k (match p_hdr p with Some h => h | None => [] end)
+  | None => map_get k (match p_hdr p with Some h => h | None => [] end)
+  end.
+Proof. unfold hdr_after_auth. destruct (p_auth p) as [[u pw]|]; [apply map_get_set|reflexivity]. Qed.
+
+Lemma headers_applied_lemma p order c r : o_req (snd (do_call p order c)) = Some r ->
+  (forall k vs, map_get k (match p_hdr p with Some h => h | None => [] end) = Some vs ->
+                k <> s_content_type -> k <> s_authorization -> map_get k (r_hdr r) = Some vs) /\
+  (forall u pw, p_auth p = Some (u, pw) -> map_get s_authorization (r_hdr r) = Some [basic_value u pw]) /\
+  (c_kind c <> KDelete -> map_get s_content_type (r_hdr r) = Some [p_fmt p]).
+Proof.
+  assert (G : forall k vs, map_get k (match p_hdr p with Some h => h | None => [] end) = Some vs ->
+                           k <> s_authorization -> map_get k (hdr_after_auth p) = Some vs).
+  { intros k vs H N. rewrite hdr_after_auth_get. destruct (p_auth p) as [[u pw]|]; [|exact H].
+    destruct (str_eqb s_authorization k) eqn:E; [apply str_eqb_eq in E; congruence|exact H]. }
+  assert (A : forall u pw, p_auth p = Some (u, pw) -> map_get s_authorization (hdr_after_auth p) = Some [basic_value u pw]).
+  { intros u pw H. rewrite hdr_after_auth_get, H, str_eqb_refl. reflexivity. }
+  unfold do_call. destruct (p_err p); [discriminate|].
+  destruct (c_kind c) eqn:K.
+  1,2: destruct (c_gather c) as [fs|]; [|discriminate]; destruct (check_families (p_grouping p) fs); [discriminate|];
+       simpl; intros H; inversion H; subst; simpl; repeat split.
+  1,4: intros k vs H1 H2 H3; rewrite map_get_set;
+       destruct (str_eqb s_content_type k) eqn:E; [apply str_eqb_eq in E; congruence|apply G; assumption].
+  1,3: intros u pw H1; rewrite map_get_set; apply A; exact H1.
+  1,2: intros _; rewrite map_get_set, str_eqb_refl; reflexivity.
+  simpl. intros H; inversion H; subst; simpl. repeat split.
+  - intros k vs H1 H2 H3. apply G; assumption.
+  - exact A.
+  - congruence.
+Qed.
+
+(* ------------------------------------------------------------------------------------ *)
+(* the model satisfies the specification checker                                          *)
+(* ------------------------------------------------------------------------------------ *)
+Lemma berr_eqb_refl e : berr_eqb e e = true.
+Proof. destruct e; simpl; try reflexivity. apply str_eqb_refl. Qed.
+Lemma cerr_eqb_refl e : cerr_eqb e e = true.
+Proof. destruct e; simpl; try reflexivity. apply berr_eqb_refl. apply Z.eqb_refl. Qed.
+Lemma strs_eqb_refl l : strs_eqb l l = true.
+Proof. induction l as [|x r IH]; simpl; [reflexivity|]. rewrite str_eqb_refl. exact IH. Qed.
+
+Lemma str_eqb_sym a b : str_eqb a b = str_eqb b a.
+Proof.
+  destruct (str_eqb a b) eqn:E.
+  - apply str_eqb_eq in E. subst. symmetry. apply str_eqb_refl.
+  - destruct (str_eqb b a) eqn:E'; [|reflexivity]. apply str_eqb_eq in E'. subst. rewrite str_eqb_refl in E. discriminate.
+Qed.
+
+Lemma builder_hdr ops p :
+  p_hdr (run_builder p ops) =
+  match spec_last (fun o => match o with BHeader h => Some h | _ => None end) ops with Some h => h | None => p_hdr p end.
+Proof.
+  revert p; induction ops as [|o r IH]; intros p; [reflexivity|].
+  simpl. rewrite IH. destruct (spec_last _ r); [reflexivity|].
+  destruct o as [n v|f| |h|u pw|f]; simpl; try reflexivity.
+  - destruct (p_err p); [reflexivity|]. destruct (label_name_valid n); reflexivity.
+  - destruct (p_err p); [reflexivity|]. destruct f; reflexivity.
+Qed.
+Lemma builder_auth ops p :
+  p_auth (run_builder p ops) = match spec_auth ops with Some a => Some a | None => p_auth p end.
+Proof.
+  unfold spec_auth. revert p; induction ops as [|o r IH]; intros p; [reflexivity|].
+  simpl. rewrite IH. destruct (spec_last _ r); [reflexivity|].
+  destruct o as [n v|f| |h|u pw|f]; simpl; try reflexivity.
+  - destruct (p_err p); [reflexivity|]. destruct (label_name_valid n); reflexivity.
+  - destruct (p_err p); [reflexivity|]. destruct f; reflexivity.
+Qed.
+Lemma builder_fmt ops p :
+  p_fmt (run_builder p ops) =
+  match spec_last (fun o => match o with BFormat f => Some f | _ => None end) ops with Some f => f | None => p_fmt p end.
+Proof.
+  revert p; induction ops as [|o r IH]; intros p; [reflexivity|].
+  simpl. rewrite IH. destruct (spec_last _ r); [reflexivity|].
+  destruct o as [n v|f| |h|u pw|f]; simpl; try reflexivity.
+  - destruct (p_err p); [reflexivity|]. destruct (label_name_valid n); reflexivity.
+  - destruct (p_err p); [reflexivity|]. destruct f; reflexivity.
+Qed.
+
+Lemma spec_lookup_names n ops :
+  str_in n (spec_names ops) = match spec_lookup n ops with Some _ => true | None => false end.
+Proof.
+  induction ops as [|o r IH]; [reflexivity|].
+  destruct o as [n0 v0| | | | |]; simpl; try (rewrite IH; destruct (spec_lookup n r); reflexivity).
+  unfold str_in in *. simpl. rewrite IH. rewrite (str_eqb_sym n n0).
+  destruct (spec_lookup n r); [apply orb_true_r|]. rewrite orb_false_r. destruct (str_eqb n0 n); reflexivity.
+Qed.
+
+Lemma map_has_names url job ops n : p_err (run_builder (new url job) ops) = None ->
+  map_has n (p_grouping (run_builder (new url job) ops)) = str_in n (spec_names ops).
+Proof.
+  intros E. unfold map_has. rewrite (grouping_is_last ops _ n E), spec_lookup_names. simpl.
+  destruct (spec_lookup n ops); reflexivity.
+Qed.
+
+Lemma existsb_ext' {A} (f g : A -> bool) l : (forall x, f x = g x) -> existsb f l = existsb g l.
+Proof. intros H. induction l as [|x r IH]; [reflexivity|]. simpl. rewrite H, IH. reflexivity. Qed.
+
+Lemma has_label_ext P Q fs : (forall n, P n = Q n) -> has_label P fs = has_label Q fs.
+Proof.
+  intros H. unfold has_label. apply existsb_ext'. intros f. apply existsb_ext'. intros m. apply existsb_ext'.
+  intros l. apply H.
+Qed.
+
+(* what a peer sees of an outcome: the request target is the URL without "scheme://authority" (= host) *)
+Definition observe (host : str) (o : outcome) : obs :=
+  mkObs (o_err o)
+        (match o_req o with Some _ => 1 | None => 0 end)
+        (match o_req o with
+         | Some r => Some (r_method r, match strip_prefix host (r_url r) with Some x => x | None => [] end, r_hdr r)
+         | None => None
+         end)
+        true.
+
+(* a Pusher state that agrees with what the builder calls `ops` configured *)
+Record agrees (host pre job : str) (ops : list bop) (p : pusher) : Prop := {
+  ag_err : p_err p = spec_first_error job ops;
+  ag_url : p_url p = host ++ pre;
+  ag_key : p_err p = None -> forall order, Permutation order (p_grouping p) ->
+           spec_key_ok pre job ops (pre ++ s_metrics ++ key_path (p_job p) order) = true;
+  ag_names : p_err p = None -> forall n, map_has n (p_grouping p) = str_in n (spec_names ops);
+  ag_hdr : forall k vs, map_get k (spec_header ops) = Some vs -> k <> s_content_type -> k <> s_authorization ->
+           map_get k (match p_hdr p with Some h => h | None => [] end) = Some vs;
+  ag_auth : p_auth p = spec_auth ops;
+  ag_fmt : p_fmt p = spec_format ops
+}.
+
+Lemma builder_agrees host pre url job ops :
+  let p := run_builder (new url job) ops in
+  p_url p = host ++ pre -> bytes job -> groupings_ok ops -> agrees host pre job ops p.
+Proof.
+  intros p Hurl Hjob Hg. constructor.
+  - apply builder_error_is_first_lemma.
+  - exact Hurl.
+  - intros E order Hp. apply (model_key_ok_lemma url job ops pre order); assumption.
+  - intros E n. apply map_has_names. exact E.
+  - intros k vs G _ _. rewrite <- G. f_equal.
+    unfold spec_header, p. rewrite builder_hdr. simpl. destruct (spec_last _ ops) as [[h|]|]; reflexivity.
+  - unfold p. rewrite builder_auth. simpl. destruct (spec_auth ops); reflexivity.
+  - unfold spec_format, p. rewrite builder_fmt. simpl. destruct (spec_last _ ops); reflexivity.
+Qed.
+
+(* a call changes nothing but (through the aliased header map) the Content-Type and Authorization entries *)
+Lemma do_call_fields p order c :
+  let p' := fst (do_call p order c) in
+  p_err p' = p_err p /\ p_url p' = p_url p /\ p_job p' = p_job p /\ p_grouping p' = p_grouping p /\
+  p_auth p' = p_auth p /\ p_fmt p' = p_fmt p /\
+  (forall k, k <> s_content_type -> k <> s_authorization ->
+     map_get k (match p_hdr p' with Some h => h | None => [] end) =
+     map_get k (match p_hdr p with Some h => h | None => [] end)).
+Proof.
+  assert (KA : forall h, (forall k, k <> s_content_type -> k <> s_authorization ->
+                 map_get k h = map_get k (match p_hdr p with Some h => h | None => [] end)) ->
+            let p' := keep_alias p h in
+            p_err p' = p_err p /\ p_url p' = p_url p /\ p_job p' = p_job p /\ p_grouping p' = p_grouping p /\
+            p_auth p' = p_auth p /\ p_fmt p' = p_fmt p /\
+            (forall k, k <> s_content_type -> k <> s_authorization ->
+               map_get k (match p_hdr p' with Some h => h | None => [] end) =
+               map_get k (match p_hdr p with Some h => h | None => [] end))).
+  { intros h H. unfold keep_alias. destruct (p_hdr p) eqn:P; simpl; repeat split; try reflexivity.
+    - exact H.
+    - intros. rewrite P. reflexivity. }
+  assert (HA : forall k, k <> s_authorization ->
+            map_get k (hdr_after_auth p) = map_get k (match p_hdr p with Some h => h | None => [] end)).
+  { intros k N. rewrite hdr_after_auth_get. destruct (p_auth p) as [[u pw]|]; [|reflexivity].
+    destruct (str_eqb s_authorization k) eqn:X; [apply str_eqb_eq in X; congruence|reflexivity]. }
+  assert (HC : forall k, k <> s_content_type -> k <> s_authorization ->
+            map_get k (map_set s_content_type [p_fmt p] (hdr_after_auth p)) =
+            map_get k (match p_hdr p with Some h => h | None => [] end)).
+  { intros k N1 N2. rewrite map_get_set.
+    destruct (str_eqb s_content_type k) eqn:X; [apply str_eqb_eq in X; congruence|apply HA; exact N2]. }
+  unfold do_call. destruct (p_err p) eqn:E; [simpl; repeat split; try reflexivity; exact E|].
+  destruct (c_kind c).
+  1,2: destruct (c_gather c) as [fs|]; [|simpl; repeat split; try reflexivity; exact E];
+       destruct (check_families (p_grouping p) fs); [simpl; repeat split; try reflexivity; exact E|];
+       cbv zeta; simpl fst; pose proof (KA _ HC) as Q; cbv zeta in Q; try rewrite E in Q; exact Q.
+  assert (HD : forall k, k <> s_content_type -> k <> s_authorization ->
+            map_get k (hdr_after_auth p) = map_get k (match p_hdr p with Some h => h | None => [] end))
+    by (intros k _ N; apply HA; exact N).
+  cbv zeta; simpl fst; pose proof (KA _ HD) as Q; cbv zeta in Q; try rewrite E in Q; exact Q.
+Qed.
+
+Lemma do_call_agrees host pre job ops p order c :
+  agrees host pre job ops p -> agrees host pre job ops (fst (do_call p order c)).
+Proof.
+  intros A. destruct (do_call_fields p order c) as (F1 & F2 & F3 & F4 & F5 & F6 & F7).
+  destruct A. constructor.
+  - congruence.
+  - congruence.
+  - rewrite F1, F3, F4. assumption.
+  - rewrite F1, F4. assumption.
+  - intros k vs G N1 N2. rewrite (F7 k N1 N2). apply ag_hdr0; assumption.
+  - congruence.
+  - congruence.
+Qed.
+
+Section ModelSpec.
+  Variables (host pre job : str) (ops : list bop) (p : pusher) (order : list (str * str)).
+  Hypothesis A : agrees host pre job ops p.
+  Hypothesis Hperm : Permutation order (p_grouping p).
+  Hypothesis E : p_err p = None.
+
+  Lemma model_headers_ok c r : o_req (snd (do_call p order c)) = Some r -> spec_headers_ok (c_kind c) ops (r_hdr r) = true.
+  Proof.
+    intros R. destruct (headers_applied_lemma p order c r R) as (H1 & H2 & H3). destruct A.
+    unfold spec_headers_ok. apply andb_true_iff; split; [apply andb_true_iff; split|].
+    - apply forallb_forall. intros [k vs] _. simpl.
+      destruct (str_eqb k s_content_type) eqn:X; [reflexivity|].
+      destruct (str_eqb k s_authorization) eqn:Y; [reflexivity|]. simpl.
+      destruct (map_get k (spec_header ops)) as [vs'|] eqn:G; [|reflexivity].
+      assert (N1 : k <> s_content_type) by (intros Z; subst; rewrite str_eqb_refl in X; discriminate).
+      assert (N2 : k <> s_authorization) by (intros Z; subst; rewrite str_eqb_refl in Y; discriminate).
+      unfold hdr_value_is. rewrite (H1 k vs' (ag_hdr0 k vs' G N1 N2) N1 N2). apply strs_eqb_refl.
+    - rewrite <- ag_auth0. destruct (p_auth p) as [[u pw]|] eqn:X; [|reflexivity].
+      unfold hdr_value_is. rewrite (H2 u pw eq_refl). apply strs_eqb_refl.
+    - destruct (c_kind c) eqn:K; try reflexivity;
+        (unfold hdr_value_is; rewrite H3 by discriminate; rewrite ag_fmt0; apply strs_eqb_refl).
+  Qed.
+
+  Lemma model_req_ok c r : o_req (snd (do_call p order c)) = Some r ->
+    spec_req_ok pre job ops (c_kind c)
+      (r_method r, match strip_prefix host (r_url r) with Some x => x | None => [] end, r_hdr r) = true.
+  Proof.
+    intros R. destruct (method_per_call_lemma p order c r R) as (M & U & _).
+    unfold spec_req_ok. apply andb_true_iff; split; [apply andb_true_iff; split|].
+    - rewrite M. apply Z.eqb_refl.
+    - rewrite U. unfold full_url_with. rewrite (ag_url _ _ _ _ _ A), <- app_assoc, strip_prefix_app.
+      apply (ag_key _ _ _ _ _ A); assumption.
+    - apply model_headers_ok. exact R.
+  Qed.
+End ModelSpec.
+
+(* every call on a state that agrees with the builder calls passes the specification checker *)
+Lemma call_satisfies_spec host pre job ops p order c :
+  agrees host pre job ops p -> Permutation order (p_grouping p) ->
+  spec_call_ok pre job ops c (observe host (snd (do_call p order c))) = true.
+Proof.
+  intros A Hperm. unfold spec_call_ok.
+  rewrite <- (ag_err _ _ _ _ _ A).
+  destruct (p_err p) as [e|] eqn:E.
+  - rewrite (do_call_err p order c e E). simpl. apply berr_eqb_refl.
+  - pose proof (fun r => model_req_ok host pre job ops p order A Hperm E c r) as REQ.
+    pose proof (status_classification_lemma p order c) as ST.
+    assert (HN : forall fs, has_label (fun n => str_in n (spec_names ops)) fs =
+                            has_label (fun n => map_has n (p_grouping p)) fs).
+    { intros fs. apply has_label_ext. intros n. symmetry. apply (ag_names _ _ _ _ _ A E). }
+    assert (SENT : forall r, o_req (snd (do_call p order c)) = Some r ->
+      match c_tr c with
+      | TFail => cerr_eqb (ob_err (observe host (snd (do_call p order c)))) CTransport &&
+                 (ob_sent (observe host (snd (do_call p order c))) <=? 1) &&
+                 match ob_req (observe host (snd (do_call p order c))) with
+                 | Some r0 => spec_req_ok pre job ops (c_kind c) r0 && ob_body_ok (observe host (snd (do_call p order c)))
+                 | None => true end
+      | TStatus s => (ob_sent (observe host (snd (do_call p order c))) =? 1) &&
+                 cerr_eqb (ob_err (observe host (snd (do_call p order c)))) (spec_status_err (c_kind c) s) &&
+                 match ob_req (observe host (snd (do_call p order c))) with
+                 | Some r0 => spec_req_ok pre job ops (c_kind c) r0 && ob_body_ok (observe host (snd (do_call p order c)))
+                 | None => false end
+      end = true).
+    { intros r R. specialize (ST r R). specialize (REQ r R). unfold observe. rewrite R.
+      cbn [ob_err ob_sent ob_req ob_body_ok]. rewrite ST.
+      destruct (c_tr c); rewrite REQ, cerr_eqb_refl; reflexivity. }
+    destruct (c_kind c) eqn:K.
+    + (* Push *)
+      destruct (c_gather c) as [fs|] eqn:G.
+      * destruct (check_families (p_grouping p) fs) as [e|] eqn:CF.
+        -- assert (D : do_call p order c = (p, mkO None e)) by (unfold do_call; rewrite E, K, G, CF; reflexivity).
+           rewrite D. simpl. rewrite HN.
+           destruct (check_families_some _ _ _ CF) as [(X & B)|(X & B)]; subst e; rewrite B; simpl.
+           ++ reflexivity.
+           ++ rewrite orb_true_r. simpl. apply orb_true_r.
+        -- destruct (check_families_none _ _ CF) as (X & B). rewrite HN, X, B. simpl.
+           assert (D : exists r, o_req (snd (do_call p order c)) = Some r)
+             by (unfold do_call; rewrite E, K, G, CF; simpl; eexists; reflexivity).
+           destruct D as (r & R). apply (SENT r R).
+      * assert (D : do_call p order c = (p, mkO None CGather)) by (unfold do_call; rewrite E, K, G; reflexivity).
+        rewrite D. reflexivity.
+    + (* Add *)
+      destruct (c_gather c) as [fs|] eqn:G.
+      * destruct (check_families (p_grouping p) fs) as [e|] eqn:CF.
+        -- assert (D : do_call p order c = (p, mkO None e)) by (unfold do_call; rewrite E, K, G, CF; reflexivity).
+           rewrite D. simpl. rewrite HN.
+           destruct (check_families_some _ _ _ CF) as [(X & B)|(X & B)]; subst e; rewrite B; simpl.
+           ++ reflexivity.
+           ++ rewrite orb_true_r. simpl. apply orb_true_r.
+        -- destruct (check_families_none _ _ CF) as (X & B). rewrite HN, X, B. simpl.
+           assert (D : exists r, o_req (snd (do_call p order c)) = Some r)
+             by (unfold do_call; rewrite E, K, G, CF; simpl; eexists; reflexivity).
+           destruct D as (r & R). apply (SENT r R).
+      * assert (D : do_call p order c = (p, mkO None CGather)) by (unfold do_call; rewrite E, K, G; reflexivity).
+        rewrite D. reflexivity.
+    + (* Delete *)
+      assert (D : exists r, o_req (snd (do_call p order c)) = Some r)
+        by (unfold do_call; rewrite E, K; simpl; eexists; reflexivity).
+      destruct D as (r & R). apply (SENT r R).
+Qed.
+
+(* any sequence of calls, each seeing the grouping map in its own iteration order *)
+Fixpoint run_calls (p : pusher) (cs : list (list (str * str) * call)) : list outcome :=
+  match cs with
+  | [] => []
+  | (order, c) :: r => let (p1, o) := do_call p order c in o :: run_calls p1 r
+  end.
+
+Fixpoint calls_ok (host pre job : str) (ops : list bop) (cs : list (list (str * str) * call)) (os : list outcome) : bool :=
+  match cs, os with
+  | [], [] => true
+  | (_, c) :: cr, o :: or_ => spec_call_ok pre job ops c (observe host o) && calls_ok host pre job ops cr or_
+  | _, _ => false
+  end.
+
+Lemma calls_satisfy_spec host pre job ops cs : forall p,
+  agrees host pre job ops p -> Forall (fun oc => Permutation (fst oc) (p_grouping p)) cs ->
+  calls_ok host pre job ops cs (run_calls p cs) = true.
+Proof.
+  induction cs as [|[order c] r IH]; intros p A H; [reflexivity|].
+  inversion H as [|? ? Ho Hr]; subst. simpl in Ho.
+  simpl. pose proof (call_satisfies_spec host pre job ops p order c A Ho) as S.
+  pose proof (do_call_agrees host pre job ops p order c A) as A'.
+  destruct (do_call_fields p order c) as (_ & _ & _ & F4 & _).
+  destruct (do_call p order c) as [p1 o]. simpl in *. rewrite S. simpl. apply IH; [exact A'|].
+  rewrite F4. exact Hr.
+Qed.
+
+Lemma model_satisfies_spec_lemma host pre url job ops cs :
+  let p := run_builder (new url job) ops in
+  p_url p = host ++ pre -> bytes job -> groupings_ok ops ->
+  Forall (fun oc => Permutation (fst oc) (p_grouping p)) cs ->
+  calls_ok host pre job ops cs (run_calls p cs) = true.
+Proof.
+  intros p Hurl Hjob Hg H. apply calls_satisfy_spec; [|exact H]. apply builder_agrees; assumption.
+Qed.
+
+(* ------------------------------------------------------------------------------------ *)
+(* end-to-end corollaries, refutations, examples                                          *)
+(* ------------------------------------------------------------------------------------ *)
+(* whatever is done with a Pusher whose builder calls contain a failure: every later call returns the
+   first such error and sends nothing *)
+Lemma builder_failure_blocks_everything_lemma url job ops later :
+  spec_first_error job ops <> None ->
+  let p := run_builder (new url job) ops in
+  exists e, spec_first_error job ops = Some e /\ p_err (fst (run p later)) = Some e /\
+            Forall (fun o => o_req o = None /\ o_err o = CBuilder e) (snd (run p later)).
+Proof.
+  intros H p. destruct (spec_first_error job ops) as [e|] eqn:S; [|congruence].
+  exists e. split; [reflexivity|]. apply first_error_sticky_lemma.
+  unfold p. rewrite builder_error_is_first_lemma. exact S.
+Qed.
+
+(* KNOWN FINDING label-name-slash: a UTF-8-valid label name with '/' is accepted and inserted unescaped *)
+Lemma label_name_slash_refuted_lemma :
+  exists job n v,
+    let ops := [BGrouping n v] in
+    let p := run_builder (new (of_string "h") job) ops in
+    label_name_valid n = true /\ p_err p = None /\
+    decode_path [] (url_path (full_url_with p (p_grouping p))) = None /\
+    spec_key_ok [] job ops (url_path (full_url_with p (p_grouping p))) = false.
+Proof. exists (of_string "j"), (of_string "x/y"), (of_string "v"). vm_compute. repeat split; reflexivity. Qed.
+
+(* KNOWN FINDING grouping-job: Grouping("job", v) is accepted; the key then carries the label job twice *)
+Lemma grouping_job_refuted_lemma :
+  exists job v,
+    let ops := [BGrouping s_job v] in
+    let p := run_builder (new (of_string "h") job) ops in
+    p_err p = None /\
+    decode_path [] (url_path (full_url_with p (p_grouping p))) = Some (job, [(s_job, v)]) /\
+    spec_key_ok [] job ops (url_path (full_url_with p (p_grouping p))) = false.
+Proof. exists (of_string "j"), (of_string "x"). vm_compute. repeat split; reflexivity. Qed.
+
+Definition ex_ops : list bop :=
+  [BGrouping (of_string "zone") (of_string "a b+c%?#;=.~"); BGrouping (of_string "empty") [];
+   BGrouping (of_string "zone") [195; 169; 47]; BNoop; BBasicAuth (of_string "u") (of_string "p")].
+Definition ex_p : pusher := run_builder (new (of_string "gw:9091/pre/") (of_string "a b/c")) ex_ops.
+
+Lemma example_roundtrip_lemma :
+  p_err ex_p = None /\
+  full_url_with ex_p (p_grouping ex_p) =
+    of_string "http://gw:9091/pre/metrics/job@base64/YSBiL2M/zone@base64/w6kv/empty@base64/=" /\
+  decode_path (of_string "/pre") (url_path (full_url_with ex_p (p_grouping ex_p))) =
+    Some (of_string "a b/c", [(of_string "zone", [195; 169; 47]); (of_string "empty", [])]) /\
+  fst (encode_component (of_string "a b+c%?#;=.~")) = of_string "a%20b%2Bc%25%3F%23%3B%3D.~" /\
+  basic_value (of_string "u") (of_string "p") = of_string "Basic dTpw".
+Proof. vm_compute. repeat split; reflexivity. Qed.
+
+(* the hypotheses of model_satisfies_spec are satisfiable, and the checker accepts the model's calls *)
+Lemma example_calls_lemma :
+  let cs := [(p_grouping ex_p, mkC KPush (Some [(of_string "m", [[(of_string "l", of_string "v")]])]) (TStatus 200));
+             (rev (p_grouping ex_p), mkC KDelete None (TStatus 200));
+             (p_grouping ex_p, mkC KAdd (Some [(of_string "m", [[(of_string "zone", of_string "v")]])]) (TStatus 202));
+             (p_grouping ex_p, mkC KAdd None TFail)] in
+  p_url ex_p = of_string "http://gw:9091" ++ of_string "/pre" /\
+  bytesb (of_string "a b/c") = true /\
+  map (fun o => (o_err o, match o_req o with Some r => r_method r | None => -1 end)) (run_calls ex_p cs) =
+    [(CNone, 0); (CStatus 200, 2); (CGroupLabel, -1); (CGather, -1)] /\
+  calls_ok (of_string "http://gw:9091") (of_string "/pre") (of_string "a b/c") ex_ops cs (run_calls ex_p cs) = true.
+Proof. vm_compute. repeat split; reflexivity. Qed.
+
+Lemma example_sticky_lemma :
+  let later := [OB (BGrouping (of_string "ok") []); OC (mkC KPush (Some []) (TStatus 200)); OB (BCollector true);
+                OC (mkC KDelete None (TStatus 202))] in
+  map o_err (snd (run (run_builder (new (of_string "h") (of_string "j")) [BGrouping [255] []; BCollector true]) later)) =
+    [CBuilder (EBadName [255]); CBuilder (EBadName [255])].
+Proof. vm_compute. reflexivity. Qed.
+
+Lemma example_utf8_lemma :
+  map label_name_valid [of_string "x/y"; [255]; []; [237; 160; 128]; [226; 130; 172]; [240; 159; 152; 128]; [192; 128]; [244; 144; 128; 128]] =
+  [true; false; false; false; true; true; false; false].
+Proof. vm_compute. reflexivity. Qed.
